@@ -100,6 +100,7 @@ def run_rule(run, rule_id, rels, _control=False):
                 # a projection (str(), repr(), hash(), .__name__ ...) of a field identifies less than the field does:
                 # two different parameters with the same projection would share one cached type
                 proj = [x for x in (l, r) if (isinstance(x, ast.Call) and any(dotted(a) and "." in dotted(a) and dotted(a).split(".")[0] in ("self", o) for a in x.args))
+                        or (isinstance(x, ast.Call) and dotted(x.func) in ("str", "repr", "hash", "format", "len") and any(dotted(a) in ("self", o) for a in x.args))
                         or (isinstance(x, ast.Attribute) and x.attr in ("__name__", "__qualname__", "__class__") and isinstance(x.value, ast.Attribute))]
                 if proj:
                     run.ob(False, f"{cname}.__eq__", file=rel, line=c.lineno, detail=f"projection {src(proj[0])}", expected="fields compared themselves (identity / equality of the parameter objects)",
